@@ -1,45 +1,100 @@
-//! C02 (durability profile) and C03 (truncation profile) over the shared log drivers.
+//! C02 (durability profile) and C03 (truncation profile) over the shared log drivers:
+//! L1 = LogInnerManager (one file), L2 = the actor chain behind FileStore (several files, pointer
+//! files, catalogue).
 
 use crate::engine::*;
 use crate::logl1::l1_case_report;
+use crate::logl2::l2_case_report;
 use crate::logmodel::*;
+use proptest::prelude::*;
+use serde::{Deserialize, Serialize};
 use std::sync::Arc;
 
-fn strat_c02_l1() -> proptest::strategy::BoxedStrategy<LogCase> {
-    case_strategy(Profile::Durability, false, 40)
+#[derive(Debug, Clone, Serialize, Deserialize)]
+pub struct Driven {
+    #[serde(default = "default_driver")]
+    pub driver: String,
+    #[serde(flatten)]
+    pub case: LogCase,
 }
-fn strat_c03_l1() -> proptest::strategy::BoxedStrategy<LogCase> {
-    case_strategy(Profile::Truncation, false, 40)
+
+fn default_driver() -> String {
+    "L1".into()
+}
+
+fn strat_c02_l1() -> BoxedStrategy<Driven> {
+    case_strategy(Profile::Durability, false, 40).prop_map(|case| Driven { driver: "L1".into(), case }).boxed()
+}
+fn strat_c03_l1() -> BoxedStrategy<Driven> {
+    case_strategy(Profile::Truncation, false, 40).prop_map(|case| Driven { driver: "L1".into(), case }).boxed()
+}
+fn strat_c02_l2() -> BoxedStrategy<Driven> {
+    case_strategy(Profile::Durability, true, 30).prop_map(|case| Driven { driver: "L2".into(), case }).boxed()
+}
+fn strat_c03_l2() -> BoxedStrategy<Driven> {
+    case_strategy(Profile::Truncation, true, 30).prop_map(|case| Driven { driver: "L2".into(), case }).boxed()
+}
+
+pub fn run_driven(d: &Driven, profile: Profile) -> CaseReport {
+    if d.driver == "L2" {
+        l2_case_report(&d.case, profile)
+    } else {
+        l1_case_report(&d.case, profile)
+    }
 }
 
 pub fn main(ctx: &Ctx, profile: Profile) -> i32 {
     if let Some(p) = &ctx.replay {
-        let case: LogCase = match read_replay(p) {
+        let case: Driven = match read_replay(p) {
             Ok(c) => c,
             Err(e) => {
                 eprintln!("cannot read replay: {}", e);
                 return 2;
             }
         };
-        return finish_replay(ctx, l1_case_report(&case, profile), p);
+        return finish_replay(ctx, run_driven(&case, profile), p);
     }
-    let stats = Arc::new(Stats::default());
-    let n_l1 = ctx.tier.pick(1500u32, 25_000u32);
-    let fin = Finish {
+    let fin = || Finish {
         level: "exploration",
         rule: match profile {
-            Profile::Durability => "L1: generated histories (<=40 ops, <=1200 entries) over append / append-many / delete-from+re-append / bare strip / window read / split-off / reopen against LogInnerManager with boundary-aimed payload sizes (record end on a 1024 multiple from the recovery scan base, +-1/2, 0..4 KB, 64 KB), compared with a Vec reference model after every op and after every reopen; non-trivial = a reopen that follows >=1 acknowledged append in a history that also has a boundary-size record, >128 records in the file, a truncation or a split-off; distinct = hash of the case".to_string(),
-            Profile::Truncation => "L1: generated truncation-heavy histories against LogInnerManager (cut point classes: any, around the last 128-record index boundary +-2, two boundaries back, last N, end; re-append shorter/equal/longer than the removed entries); reference model compared after every op; non-trivial = a truncation of >=1 entry followed by >=1 re-append at k and later a reopen; distinct = hash of the case".to_string(),
+            Profile::Durability => "L1: generated histories (<=40 ops, <=1200 entries) over append / append-many / delete-from+re-append / bare strip / window read / split-off / reopen against LogInnerManager with boundary-aimed payload sizes (record end on a 1024 multiple from the recovery scan base, +-1/2, 0..4 KB, 64 KB), compared with a Vec reference model after every op and after every reopen. L2: the same generator plus batch replication, compaction pointers, snapshot-install pointers (inside and beyond the log) and the 500 ms flush timer against the real FileStore actor chain, reopen = new actix System on the same directory. non-trivial = a reopen that follows >=1 acknowledged append in a history that also has a boundary-size record, >128 records in a file, a truncation, a split-off or a pointer op; distinct = hash of the case".to_string(),
+            Profile::Truncation => "L1 + L2 truncation-heavy histories (cut point classes: any, around the last 128-record index boundary +-2, two boundaries back, last N, end; re-append shorter/equal/longer than the removed entries, single or batch; L2 also with pointer files present); reference model compared after every op; non-trivial = a truncation of >=1 entry followed by >=1 re-append at k and later a reopen; distinct = hash of the case".to_string(),
         },
         assumptions: vec![
-            "appends are contiguous at last+1 (async-raft discipline); truncation never below the split-off".into(),
+            "appends are contiguous at last+1 (async-raft discipline); truncation never at or below a snapshot pointer / split-off".into(),
             "terms non-decreasing, bumped after every truncation".into(),
+            "entries at or below the newest requested snapshot pointer may be returned as the original entry, as the pointer, or not at all (compaction is at the store's discretion); everything above must match exactly".into(),
         ],
         exhaustive: None,
     };
+    let stats = Arc::new(Stats::default());
+    // regression tier: every committed replay of this property (minimised earlier failures)
+    for p in saved_replays(&ctx.id) {
+        if let Ok(case) = read_replay::<Driven>(&p) {
+            let rep = run_driven(&case, profile);
+            stats.label("saved_replay_rerun");
+            if let Verdict::Violation(m) = &rep.verdict {
+                stats.record(&case, &rep);
+                write_evidence(ctx, &stats, &fin(), 1);
+                println!("violation detail: {}", m);
+                println!("VIOLATION property={} replay={}", ctx.id, p.display());
+                return 1;
+            }
+            stats.record(&case, &rep);
+        }
+    }
+    let n_l1 = ctx.tier.pick(1000u32, 25_000u32);
+    let n_l2 = ctx.tier.pick(240u32, 4_000u32);
     let fail = match profile {
-        Profile::Durability => run_cases(ctx, &stats, strat_c02_l1 as fn() -> _, n_l1, cores(), 3000, move |c| l1_case_report(c, Profile::Durability)),
-        Profile::Truncation => run_cases(ctx, &stats, strat_c03_l1 as fn() -> _, n_l1, cores(), 3000, move |c| l1_case_report(c, Profile::Truncation)),
+        Profile::Durability => run_cases(ctx, &stats, strat_c02_l1 as fn() -> _, n_l1, cores(), 3000, move |c| run_driven(c, Profile::Durability)),
+        Profile::Truncation => run_cases(ctx, &stats, strat_c03_l1 as fn() -> _, n_l1, cores(), 3000, move |c| run_driven(c, Profile::Truncation)),
     };
-    finish(ctx, &stats, fin, fail)
+    if fail.is_some() {
+        return finish(ctx, &stats, fin(), fail);
+    }
+    let fail = match profile {
+        Profile::Durability => run_cases(ctx, &stats, strat_c02_l2 as fn() -> _, n_l2, cores(), 1500, move |c| run_driven(c, Profile::Durability)),
+        Profile::Truncation => run_cases(ctx, &stats, strat_c03_l2 as fn() -> _, n_l2, cores(), 1500, move |c| run_driven(c, Profile::Truncation)),
+    };
+    finish(ctx, &stats, fin(), fail)
 }
